@@ -21,7 +21,16 @@ END = "\x1b[?2026l"
 Z_MAX = 2**31 - 1
 
 LAYOUTS = ("pile", "list", "tlist", "cols", "bcols", "bare", "solid")
-KINDS_BY_IDENTITY = {"kitty": ("K", "B"), "konsole": ("K", "I", "B"), "other": ("B",)}
+KINDS_BY_IDENTITY = {"kitty": ("K", "B"), "konsole": ("K", "I", "B"), "other": ("B",),
+                     "kitty-0.25": ("K", "B"), "other+forced": ("K", "B")}
+# scene identity -> (identity of the virtual tty / responder, placement semantics of the terminal model,
+#                    KittyImage.forced_support)
+#   kitty-0.25   : kitty 0.25.0 (the newest version for which the library avoids blend=False in animations)
+#   other+forced : a terminal that implements the kitty protocol but is not recognised (WezTerm, Ghostty, ...):
+#                  the application sets KittyImage.forced_support; placements behave as on kitty
+IDENTITY_MAP = {"kitty": ("kitty", "kitty", False), "konsole": ("konsole", "konsole", False),
+                "other": ("other", "other", False), "kitty-0.25": ("kitty-0.25", "kitty", False),
+                "other+forced": ("other", "kitty", True)}
 
 
 class Out:
@@ -144,6 +153,7 @@ class Stage:
         gc.collect()
         self.ident = cfg["identity"]
         self.W, self.H = cfg["size"]
+        self.world_ident, self.term_ident, forced = IDENTITY_MAP[self.ident]
         wkey = (self.ident, self.W, self.H)
         if Stage._world_key == wkey and world.W.tty is Stage._world_tty:
             # same terminal as the previous execution: the memoised terminal facts (name, colours, cell
@@ -156,7 +166,9 @@ class Stage:
             um.UrwidImage._ti_next_z_index = 1
             um.UrwidImageCanvas._ti_disguise_state = 0
         else:
-            self.tty = world.setup(self.ident, self.W, self.H, cell=CELL)
+            self.tty = world.setup(self.world_ident, self.W, self.H, cell=CELL)
+            if forced:
+                L.image.KittyImage.forced_support = True
             # an application learns what the terminal supports when it creates its images
             L.image.KittyImage.is_supported()
             L.image.ITerm2Image.is_supported()
@@ -164,7 +176,7 @@ class Stage:
             L.utils.get_cell_size()
             Stage._world_key, Stage._world_tty = wkey, self.tty
         reset_sub(self.um)
-        self.term = vterm.VTerm(self.W, self.H, self.ident)
+        self.term = vterm.VTerm(self.W, self.H, self.term_ident)
         self.tty.sink = self.term
         self.screen, self.out = new_screen(self.um, self.term)
         self.widgets = {}          # wid -> UrwidImage
@@ -180,6 +192,7 @@ class Stage:
         self.spec = dict(layout=cfg["scene"]["layout"], slots=[], scroll=cfg["scene"].get("scroll", 0),
                          ov=dict(cfg["scene"].get("ov", dict(on=False, x=0, y=0, img=False))))
         self.spec["ov"].setdefault("wid", None)
+        self.spec["tick"] = 0
         for e in cfg["scene"]["slots"]:
             if e in ("K", "I", "B"):
                 self.spec["slots"].append(["img", self.create(e)])
@@ -187,7 +200,7 @@ class Stage:
                 self.spec["slots"].append(["txt"])
         if self.spec["ov"].get("img"):
             self.spec["ov"]["wid"] = self.create(self.primary_kind())
-        if self.ident != "other":
+        if "K" in KINDS_BY_IDENTITY[self.ident]:
             # an image left on the terminal by an earlier program: start() must clear it
             self.term.feed("\x1b[2;2H\x1b_Ga=T,f=24,s=1,v=1,c=2,r=1,z=77,C=1;AAAA\x1b\\\x1b[H")
             if len(layer(self.term)) != 1 or self.term.errors:
@@ -291,10 +304,13 @@ class Stage:
                 items.append(("pack", self.slot_widget(i, False)))
             return u.Pile(items)
         if lay == "cols":
-            cols = u.Columns([self.slot_widget(i, False) for i in range(n)], dividechars=1)
+            # the last column is a text that shares its screen rows with the images and changes on "tick"
+            cols = u.Columns([self.slot_widget(i, False) for i in range(n)] + [(2, u.Text(f"n{sp['tick'] % 10}"))],
+                             dividechars=1)
             return u.Pile([("pack", cols), u.Filler(u.Text("below"), "top")])
         if lay == "bcols":
-            return u.Columns([self.slot_widget(i, True) for i in range(n)], dividechars=0)
+            return u.Columns([self.slot_widget(i, True) for i in range(n)]
+                             + [(2, u.Filler(u.Text(f"n{sp['tick'] % 10}\n..\nxx"), "top"))], dividechars=0)
         if lay in ("list", "tlist"):
             items = self.list_items()
             rows = [w.rows((self.W,)) for w in items]
@@ -363,6 +379,16 @@ class Stage:
                     ops.append(op)
             elif k in ("clear", "restart", "redraw"):
                 ops.append(op)
+            elif k == "tick":
+                if sp["layout"] in ("cols", "bcols"):
+                    ops.append(op)
+            elif k == "cimg":
+                if "K" in KINDS_BY_IDENTITY[self.ident]:
+                    ops.append(op)
+            elif k == "cimgw":
+                if ("K" in KINDS_BY_IDENTITY[self.ident] and op[1] < len(sp["slots"])
+                        and sp["slots"][op[1]][0] == "img"):
+                    ops.append(op)
             else:
                 raise world.HarnessError(f"unknown op {op}")
         return ops
@@ -426,6 +452,34 @@ class Stage:
             self.check_cleared("start")
         elif k == "redraw":
             pass
+        elif k == "tick":
+            sp["tick"] = (sp["tick"] + 1) % 10
+        elif k == "cimg":
+            # the public clear_images(): all images, immediately (straight to the terminal device) or deferred
+            now = op[1] == "now"
+            self.guard("clear_images", lambda: self.screen.clear_images(now=now))
+            if not now:
+                self.out.flush()
+            self.check_cleared("clear_images(now)" if now else "clear_images()")
+            # the next frame is a NEW top-level canvas (around the cached, unmoved image canvases)
+            if self.top is not None:
+                self.top._invalidate()
+        elif k == "cimgw":
+            now = op[2] == "now"
+            w = self.widgets[sp["slots"][op[1]][1]]
+            self.guard("clear_images", lambda: self.screen.clear_images(w, now=now))
+            if not now:
+                self.out.flush()
+            z = getattr(w, "_ti_z_index", None)
+            left = [p for p in layer(self.term) if z is not None and p.z == z and p.proto == "kitty"]
+            if left:
+                self.report(dict(clause="not-cleared", when="clear_images(widget, now)" if now else
+                                 "clear_images(widget)", identity=self.ident),
+                            f"after clear_images(widget{', now=True' if now else ''}) {len(left)} placement(s) of the "
+                            f"widget (z={z}) remain")
+            del w
+            if self.top is not None:
+                self.top._invalidate()
         if sp["layout"] in ("list", "tlist"):
             sp["scroll"] = min(sp["scroll"], self.max_scroll())
         self.check_z()
@@ -651,7 +705,7 @@ class Stage:
         if hit is not None:
             return hit
         saved = um.UrwidImageCanvas._ti_disguise_state
-        t = vterm.VTerm(self.W, self.H, self.ident)
+        t = vterm.VTerm(self.W, self.H, self.term_ident)
         self.tty.sink = t
         try:
             scr, out = new_screen(um, t)
